@@ -86,6 +86,19 @@ def shared_dd(k):
     return (st["tag"], k, x)
 
 
+def _dd2_key(args, kwargs):
+    return args[0]
+
+
+@deduplicate(keygetter=_dd2_key)
+@A()
+def shared_dd2(k, who):
+    """deduplicated on k only (custom keygetter): `who` travels with the task, so a task handed over from another
+    thread's table is visible in the result"""
+    x = yield BT.DebugBatchItem("dd", (who, "dd2", k))
+    return (who, k, x)
+
+
 def run_program(tag, vals, ks, hp, shape, perf):
     """One computation.  `hp()` is called at every harness-visible point.  Returns a trace dict."""
     tr = {"flushes": [], "ctx": [], "active_ok": True, "foreign": [], "result": None, "perf": None}
@@ -103,6 +116,43 @@ def run_program(tag, vals, ks, hp, shape, perf):
     count = {}
     _tl.state = {"tag": tag, "hp": hp, "count": count}
     dd = shared_dd
+    pst = {"pb": None}
+
+    class PB(asynq.BatchBase):
+        """a user batch whose get_priority() is Python code: a hand-over point inside the scheduler's selection loop"""
+
+        def _try_switch_active_batch(self):
+            if pst["pb"] is self:
+                pst["pb"] = PB()
+
+        def _flush(self):
+            tr["flushes"].append(("pb-direct" if not tr.get("in_sched") else "pb", [it.v for it in self.items]))
+            for it in self.items:
+                it.set_value(it.v)
+
+        def get_priority(self):
+            hp()
+            # never ties with a debug batch (whose priority is (0, n)): the flush order stays determined
+            return (0, 10 * len(self.items) + 5)
+
+    class PI(asynq.BatchItemBase):
+        def __init__(self, v):
+            if pst["pb"] is None or pst["pb"].is_flushed():
+                pst["pb"] = PB()
+            asynq.BatchItemBase.__init__(self, pst["pb"])
+            self.v = v
+
+    @A()
+    def pwait(i):
+        a = yield PI((tag, "p", i))
+        b = yield PI((tag, "q", i))
+        return (a, b)
+
+    @A()
+    def pkick():
+        x = PI((tag, "k", 0))            # joins the batch pwait is already blocked on (it is in the pending set)
+        yield BT.DebugBatchItem("s", (tag, "kick", 0))
+        return x.value()                 # flushes that batch directly: it stays in the pending set, flushed
 
     @A()
     def worker(i):
@@ -114,6 +164,9 @@ def run_program(tag, vals, ks, hp, shape, perf):
                 tr["active_ok"] = False
             hp()
             b = yield dd.asynq(ks[i])
+            b2 = yield shared_dd2.asynq(ks[i], tag)
+            if b2[0] != tag:
+                tr["foreign"].append(("deduplicated task created by another thread", b2))
             hp()
         if shape == 1:
             # (different item counts per batch: no priority tie, so the flush order is determined)
@@ -127,7 +180,7 @@ def run_program(tag, vals, ks, hp, shape, perf):
 
     @A()
     def root():
-        r = yield [worker.asynq(i) for i in range(len(vals))]
+        r = yield [worker.asynq(i) for i in range(len(vals))] + [pwait.asynq(0), pkick.asynq()]
         return r
 
     try:
@@ -161,8 +214,14 @@ def trace_key(tr):
     per_ctx = {}
     for k, name in tr["ctx"]:
         per_ctx.setdefault(name, []).append(k)
-    return (tr["result"], tr["flushes"], sorted(per_ctx.items()), tr["active_ok"], tr["foreign"], tr.get("count"),
-            tr["perf"])
+    # batch compositions as a multiset: the order among equal-priority batches is free (set iteration order)
+    def fkey(f):
+        # concrete sort key only (never format a symbolic value: that would realise it per integer)
+        name, items = f
+        return (str(name), len(items), tuple((str(it[0]), str(it[1])) if isinstance(it, tuple) and len(it) > 1 else ("-", "-")
+                                             for it in items))
+    return (tr["result"], sorted(tr["flushes"], key=fkey), sorted(per_ctx.items()), tr["active_ok"],
+            tr["foreign"], tr.get("count"), tr["perf"])
 
 
 def reset_thread_state():
@@ -197,6 +256,12 @@ def mk(nbits):
             th.join(60)
             aloneB = box["t"]
             asynq.tools.DeduplicateDecorator.tasks.clear()
+            # --- a short-lived earlier thread creates deduplicated tasks and abandons them (never run)
+            def z_main():
+                box["z"] = [shared_dd2.asynq(k, "Z") for k in (0, 1)] + [shared_dd.asynq(k) for k in (0, 1)]
+            _tl_z = threading.Thread(target=z_main)
+            _tl_z.start()
+            _tl_z.join(60)
             # --- both, interleaved at the hand-over points chosen by the schedule bits
             turn = Turn()
             pos = [0]
